@@ -17,6 +17,11 @@ Event (JSON-able):
   ['D', k]                             deliver reply number k of the log (no-op if it does not exist)
   ['P', chan, [bytes]]                 a packet on port 4 that the server never produced
   ['X']                                cf.disconnected fires
+An 'R' / 'W' event may carry one more element, a reaction {'on': 'ok'|'fail'|'any', 'op': <R or W event>}: when the
+request is notified accordingly (not by a disconnect) the listener issues `op` from INSIDE the notification callback
+(a re-entrant call into Memory, e.g. a retry).  The nested call is reported as an event of its own right after the
+event in which it happened (`Rig.flat` is the flattened history): the code calls its listeners last, so a request
+issued from a listener must behave exactly like one issued right after the event.
 Observations are encoded as integers exactly like `enc_obs` / `sys_trace` of the model.
 """
 import logging
@@ -53,6 +58,25 @@ class FakeLock:
     def __exit__(self, *a):
         self.release()
         return False
+
+
+def strip(ev):
+    """the event without its reaction"""
+    if ev[0] == 'R':
+        return list(ev[:4])
+    if ev[0] == 'W':
+        return list(ev[:5])
+    return list(ev)
+
+
+def all_ops(events):
+    """events and, recursively, the operations their reactions may issue"""
+    for ev in events:
+        yield ev
+        r = ev[4] if ev[0] == 'R' and len(ev) > 4 else ev[5] if ev[0] == 'W' and len(ev) > 5 else None
+        if r:
+            for x in all_ops([r['op']]):
+                yield x
 
 
 def test_mem(i, a):
@@ -108,6 +132,12 @@ class Rig:
         self.stream = []           # packets and notifications in the order they happen (for the oracle)
         self.want_pre = False      # record the image of the memory before each write packet is served
         self.ev_index = -1
+        self.flat = []             # the history as executed: nested (re-entrant) operations as events of their own
+        self.frames = []           # observation frames of the event being executed
+        self.in_disc = False
+        self.last_raised = False
+        self.last_hung = False
+        self.obs_after_nested = 0  # observations the outer handler produced after a re-entrant call returned
         self._register()
 
     # ---- wiring
@@ -124,14 +154,17 @@ class Rig:
     def _rok(self, mem, addr, data):
         self._bump(1, mem.id)
         self.notes.append((self.ev_index, ('rok', mem.uid, mem.id, addr, list(data))))
-        self.stream.append(('n', self.notes[-1][1]))
+        img = {a: b for (j, a), b in self.image.items() if j == mem.id} if self.want_pre else None
+        self.stream.append(('n', self.notes[-1][1], img))
         self.cur += [2, mem.uid, mem.id, addr, len(data)] + list(data)
+        self._react(mem, 'ok')
 
     def _rfail(self, mem, addr, data):
         self._bump(1, mem.id)
         self.notes.append((self.ev_index, ('rfail', mem.uid, mem.id, addr, list(data))))
         self.stream.append(('n', self.notes[-1][1]))
         self.cur += [3, mem.uid, mem.id, addr, len(data)] + list(data)
+        self._react(mem, 'fail')
 
     def _wok(self, mem, addr):
         self._bump(2, mem.id)
@@ -139,19 +172,54 @@ class Rig:
         img = {a: b for (j, a), b in self.image.items() if j == mem.id} if self.want_pre else None
         self.stream.append(('n', self.notes[-1][1], img))
         self.cur += [4, mem.uid, mem.id, addr]
+        self._react(mem, 'ok')
 
     def _wfail(self, mem, addr):
         self._bump(2, mem.id)
         self.notes.append((self.ev_index, ('wfail', mem.uid, mem.id, addr)))
         self.stream.append(('n', self.notes[-1][1]))
         self.cur += [5, mem.uid, mem.id, addr]
+        self._react(mem, 'fail')
 
-    def new_mem(self, i):
+    def new_mem(self, i, react=None):
         import cflib.crazyflie.mem as memmod
         cls = getattr(memmod, MEM_CLASSES[self.uid % len(MEM_CLASSES)])
         o = cls(id=i, type=0, size=0x1000000, mem_handler=self.mem)
         o.uid = self.uid
+        o.react = react
         return o
+
+    # ---- frames, re-entrant listeners
+    def _new_frame(self, fresh):
+        self.frames.append({'fresh': fresh, 'obs': [], 'lock': None, 'nested': False})
+        self.cur = self.frames[-1]['obs']
+
+    def _react(self, mem, kind):
+        r = getattr(mem, 'react', None)
+        if not r or self.in_disc or r['on'] not in ('any', kind):
+            return
+        mem.react = None
+        self.frames[-1]['lock'] = self.locked()
+        self._new_frame(True)
+        self.frames[-1]['nested'] = True
+        self._issue(r['op'])
+        self.frames[-1]['mark'] = len(self.cur)      # what the outer handler does from here on is out of place
+
+    def _issue(self, ev):
+        self.flat.append(strip(ev))
+        u0 = self.uid
+        self.stream.append(('op', ev, u0))
+        react = ev[4] if ev[0] == 'R' and len(ev) > 4 else ev[5] if ev[0] == 'W' and len(ev) > 5 else None
+        m = self.new_mem(ev[1], react)
+        if ev[0] == 'R':
+            r = self.mem.read(m, ev[2], ev[3])
+            if r:
+                self.uid += 1
+        else:
+            self.uid += 1
+            r = self.mem.write(m, ev[2], bytearray(ev[3]), flush_queue=bool(ev[4]))
+        self.cur += [6, 1 if r else 0]
+        self.stream.append(('opret', ev, u0, self.uid))
 
     # ---- the server
     def byte(self, i, a):
@@ -223,37 +291,45 @@ class Rig:
         cbs[0](pk)
 
     def do(self, ev):
-        """Execute one event on the real code; returns the integers of this event as `sys_trace` encodes them."""
+        """Execute one event on the real code; returns the integers of this event (and of the operations issued from
+        inside its notifications, as events of their own) as `sys_trace` encodes them."""
         self.ev_index += 1
         fr = self.fresh(ev)
-        self.cur = []
+        self.frames = []
+        self._new_frame(fr)
+        self.last_raised = self.last_hung = False
         try:
-            if ev[0] == 'R':
-                m = self.new_mem(ev[1])
-                r = self.mem.read(m, ev[2], ev[3])
-                if r:
-                    self.uid += 1
-                self.cur += [6, 1 if r else 0]
-            elif ev[0] == 'W':
-                m = self.new_mem(ev[1])
-                self.uid += 1
-                r = self.mem.write(m, ev[2], bytearray(ev[3]), flush_queue=bool(ev[4]))
-                self.cur += [6, 1 if r else 0]
-            elif ev[0] == 'D':
-                if 0 <= ev[1] < len(self.log):
-                    self.deliver(self.log[ev[1]][0], self.log[ev[1]][1])
-            elif ev[0] == 'P':
-                self.deliver(ev[1], ev[2])
-            elif ev[0] == 'X':
-                self.cf.disconnected.call('fake://0')
-                self._register()       # _clear_state() replaces the Caller objects
+            if ev[0] in ('R', 'W'):
+                self._issue(ev)
             else:
-                raise ValueError(ev)
+                self.flat.append(strip(ev))
+                if ev[0] == 'D':
+                    if 0 <= ev[1] < len(self.log):
+                        self.deliver(self.log[ev[1]][0], self.log[ev[1]][1])
+                elif ev[0] == 'P':
+                    self.deliver(ev[1], ev[2])
+                elif ev[0] == 'X':
+                    self.in_disc = True
+                    try:
+                        self.cf.disconnected.call('fake://0')
+                    finally:
+                        self.in_disc = False
+                    self._register()       # _clear_state() replaces the Caller objects
+                else:
+                    raise ValueError(ev)
         except WouldBlock:
             self.cur += [8]
+            self.last_hung = True
         except Exception:
             self.cur += [7]
-        return [9, 1 if fr else 0, 1 if self.locked() else 0] + self.cur
+            self.last_raised = True
+        out = []
+        for f in self.frames:
+            lock = self.locked() if f['lock'] is None else f['lock']
+            out += [9, 1 if f['fresh'] else 0, 1 if lock else 0] + f['obs']
+            if f['nested'] and len(f['obs']) > f.get('mark', len(f['obs'])):
+                self.obs_after_nested += 1
+        return out
 
     def locked(self):
         return any(lk.locked() for lk in self.locks)
